@@ -21,8 +21,15 @@ QUERIES = ("a", "b", "ab", "A", "", "a|b", "^a$", ".", "b+", "B",
            r"\S", r"\s", r"\W", r"\w", r"^\D+$", r"^\d+$", r"\Bb", r"\bb")
 
 
+# letters whose case mapping is irregular (final sigma, dotless / dotted i, long s, sharp s): "case-insensitive regular expression" is the regex
+# engine's relation (re.IGNORECASE), which is not the relation `a.lower() in b.lower()`
+FOLD_LABS = ("\u03bb\u03cc\u03b3\u03bf\u03c2", "\u039b\u039f\u0393\u039f\u03a3", "k\u0131z", "KIZ", "me\u017f\u017fage", "MESSAGE", "stra\u00dfe", "\u0130stanbul", "istanbul")
+FOLD_QUERIES = ("\u03c3", "\u03c2", "\u03a3", "i", "I", "\u0131", "\u0130", "s", "\u017f", "ss", "\u00df", "k", "K")
+
+
 def _check_find(case):
-    kind, L = case
+    kind, L = case[:2]
+    QUERIES = case[2] if len(case) > 2 else globals()["QUERIES"]
     if kind == "I":
         t = IT("t", [(float(i), float(i + 1), l) for i, l in enumerate(L)], 0, len(L))
     else:
@@ -378,6 +385,10 @@ def parts(tier):
             yield ("I", L)
         for L in itertools.product(LABS, repeat=2):
             yield ("P", L)
+        for L in itertools.combinations(FOLD_LABS, 2):
+            yield ("I", L, FOLD_QUERIES)
+        for L in itertools.combinations(FOLD_LABS, 3):
+            yield ("P", L, FOLD_QUERIES)
 
     def gen_non():
         for s in sets:
@@ -474,7 +485,8 @@ def parts(tier):
             yield ("P", D.labelled_points(p, "xy"))
 
     ps = [
-        InputPart("find", gen_find, _check_find, rule="all label triples over %s x %d queries x {equal, substring, case-insensitive regex}" % (LABS, len(QUERIES)), bounds={}),
+        InputPart("find", gen_find, _check_find, rule="all label triples over %s x %d queries x {equal, substring, case-insensitive regex}; pairs / triples of %d labels with irregularly cased letters "
+                                                                  "(final sigma, dotless and dotted i, long s, sharp s) x %d one- and two-letter queries" % (LABS, len(QUERIES), len(FOLD_LABS), len(FOLD_QUERIES)), bounds={}),
         InputPart("getNonEntries-timestamps", gen_non, _check_nonentries,
                   rule="all non-empty interval sets (<=3) on a 5-grid x maxTimestamp {4,6}: non-entries = exactly the unlabelled stretches, positive "
                        "length, entries + non-entries tile [0,max]; timestamps = sorted set of boundaries", bounds={}),
